@@ -1,0 +1,71 @@
+//go:build verif
+
+// Contracts for property C05 (level-limit and discard slice): every cell returned by Covering /
+// InteriorCovering is valid, at a level >= MinLevel that differs from MinLevel by a multiple of LevelMod
+// (or is a leaf); the coverer's configuration is clamped into range; a candidate is discarded only when the
+// region reports non-intersection or the interior rule applies. That a covering covers the region and the
+// region predicates themselves are floating point and are not decided. Comment-only; build tag verif.
+
+package s2
+
+//@ property C05
+
+//@ spec func vcCovererOK(c *coverer) bool = c != nil && 0 <= c.minLevel && c.minLevel <= 30 && 0 <= c.MaxLevel && c.MaxLevel <= 30 && 1 <= c.levelMod && c.levelMod <= 3
+// a cell level that respects MinLevel and LevelMod
+//@ spec func vcLevelAllowed(level, minLevel, levelMod int) bool = level >= minLevel && level <= 30 && ((level-minLevel)%levelMod == 0 || level == 30)
+
+//@ func (rc *RegionCoverer) newCoverer() *coverer
+//@   requires rc != nil
+//@   ensures [clamped] vcCovererOK(result) && vcFresh(result)
+//@   ensures [min] result.minLevel == vcClamp(rc.MinLevel, 0, 30) && result.MaxLevel == vcClamp(rc.MaxLevel, 0, 30) && result.levelMod == vcClamp(rc.LevelMod, 1, 3) && result.maxCells == rc.MaxCells
+
+//@ spec func vcClamp(x, lo, hi int) int = vcMaxI(lo, vcMinI(hi, x))
+//@ spec func vcMinI(a, b int) int = vcIf(a < b, a, b)
+//@ spec func vcMaxI(a, b int) int = vcIf(a > b, a, b)
+
+//@ func (c *coverer) adjustLevel(level int) int
+//@   requires vcCovererOK(c) && 0 <= level && level <= 30
+//@   ensures [le] result <= level && 0 <= result
+//@   ensures [below-min] level <= c.minLevel ==> result == level
+//@   ensures [mod] level > c.minLevel ==> result >= c.minLevel && (result-c.minLevel)%c.levelMod == 0 && level-result < c.levelMod
+
+//@ func (c *coverer) newCandidate(cell Cell) *candidate
+//@   requires vcCovererOK(c) && c.region != nil
+//@   ensures [discard-only-if] result == nil ==> !c.region.IntersectsCell(cell) || (c.interiorCovering && int(cell.level) >= c.minLevel && !c.region.ContainsCell(cell) && int(cell.level)+c.levelMod > c.MaxLevel)
+//@   ensures [terminal] result != nil && result.terminal ==> int(cell.level) >= c.minLevel && (c.region.ContainsCell(cell) || (!c.interiorCovering && int(cell.level)+c.levelMod > c.MaxLevel))
+//@   ensures [cell] result != nil ==> vcSame(result.cell, cell)
+
+//@ func (cu *CellUnion) Denormalize(minLevel, levelMod int)
+//@   requires cu != nil && 0 <= minLevel && minLevel <= 30 && 1 <= levelMod && levelMod <= 3 && (forall k int :: 0 <= k && k < len(*cu) ==> vcValid((*cu)[k]))
+//@   modifies *cu
+//@   ensures [valid] forall k int :: 0 <= k && k < len(*cu) ==> vcValid((*cu)[k])
+//@   ensures [levels] forall k int :: 0 <= k && k < len(*cu) ==> vcLevelAllowed((*cu)[k].Level(), minLevel, levelMod)
+//@   loop 1 (rangeindex int, denorm CellUnion): invariant [fresh] vcFreshSlice(denorm)
+//@   loop 1: invariant [input] forall k int :: 0 <= k && k < len(*cu) ==> vcValid((*cu)[k])
+//@   loop 1: invariant [valid] forall k int :: 0 <= k && k < len(denorm) ==> vcValid(denorm[k]) && vcLevelAllowed(denorm[k].Level(), minLevel, levelMod)
+//@   loop 2 (ci CellID, denorm CellUnion, end CellID, newLevel int, id CellID): invariant [fresh] vcFreshSlice(denorm)
+//@   loop 2: invariant [input] forall k int :: 0 <= k && k < len(*cu) ==> vcValid((*cu)[k])
+//@   loop 2: invariant [valid] forall k int :: 0 <= k && k < len(denorm) ==> vcValid(denorm[k]) && vcLevelAllowed(denorm[k].Level(), minLevel, levelMod)
+//@   loop 2: invariant [ci] vcLevelAllowed(newLevel, minLevel, levelMod) && vcLsb(end) == vcLsbAt(newLevel) && (ci == end || (vcValid(ci) && ci.Level() == newLevel && uint64(ci) < uint64(end)))
+//@   loop 2: decreases int((uint64(end) - uint64(ci)) >> 1)
+
+//@ func (rc *RegionCoverer) CellUnion(region Region) CellUnion
+//@   assumed "the covering search (candidate heap over float region predicates) is outside the subset; it returns a normalized union of valid cells"
+//@   requires rc != nil
+//@   ensures forall k int :: 0 <= k && k < len(result) ==> vcValid(result[k])
+
+//@ func (rc *RegionCoverer) InteriorCellUnion(region Region) CellUnion
+//@   assumed "as CellUnion, interior variant"
+//@   requires rc != nil
+//@   ensures forall k int :: 0 <= k && k < len(result) ==> vcValid(result[k])
+
+// every cell of a covering respects MinLevel and LevelMod (as clamped by the coverer)
+//@ func (rc *RegionCoverer) Covering(region Region) CellUnion
+//@   requires rc != nil
+//@   noframe
+//@   ensures [levels] forall k int :: 0 <= k && k < len(result) ==> vcValid(result[k]) && vcLevelAllowed(result[k].Level(), vcClamp(rc.MinLevel, 0, 30), vcClamp(rc.LevelMod, 1, 3))
+
+//@ func (rc *RegionCoverer) InteriorCovering(region Region) CellUnion
+//@   requires rc != nil
+//@   noframe
+//@   ensures [levels] forall k int :: 0 <= k && k < len(result) ==> vcValid(result[k]) && vcLevelAllowed(result[k].Level(), vcClamp(rc.MinLevel, 0, 30), vcClamp(rc.LevelMod, 1, 3))
